@@ -88,3 +88,33 @@ def addParens (eol : List Char) (argLead argTrail : List Triv) : List Out × Lis
   (load eol .leading argLead, sameLine (onlyComments (load eol .trailing argTrail)))
 
 end StyluaModel.Sugar
+
+/-
+Model of what a multi-line table prints behind a field's value (/repo/src/formatters/table.rs: format_field /
+format_field_expression_value take the value's trailing comments apart - block comments stay behind the value, raw;
+line comments are moved behind the separator - and format_multiline_table 336-407 formats the moved comments as
+trailing trivia, appends them and the line ending to the separator, which is the formatted original or a fresh `,`).
+-/
+namespace StyluaModel.TableField
+open StyluaModel.Trivia StyluaModel.Semi StyluaModel.HangOp
+
+def rawBlocks : List Triv → List Out
+  | [] => []
+  | .comment (.block l) t :: r => .comment (.block l) t :: rawBlocks r
+  | _ :: r => rawBlocks r
+
+/-- the single-line comments, each as format_token gives it in trailing position -/
+def movedLines (eol : List Char) : List Triv → List Out
+  | [] => []
+  | .comment .line t :: r => fmtComment eol .trailing .line t ++ movedLines eol r
+  | _ :: r => movedLines eol r
+
+/-- what follows the value's last token; `none` marks the separator -/
+def afterField (eol : List Char) (vTrail : List Triv) (sep : Option (List Triv × List Triv)) : List (Option Out) :=
+  (sameLine (rawBlocks vTrail)).map some ++
+    (match sep with
+     | some (pl, pt) => (load eol .leading pl).map some ++ [none] ++ (load eol .trailing pt).map some
+     | none => [none]) ++
+    (movedLines eol vTrail ++ [Out.newline]).map some
+
+end StyluaModel.TableField
